@@ -934,7 +934,7 @@ def kind_getattr(interp, k, name):
         if name == "item":
             def item(_k=k):
                 if _k.kind == "npcomplex":
-                    return Kind("pycomplex", rep=1j, tok=("item", _k.payload.get("v")))
+                    return Kind("pycomplex", rep=1j, tok=("item-of", id(_k)))  # python complex with the scalar's value
                 return _k.payload["v"]
             return item
         if name == "dtype":
